@@ -32,7 +32,8 @@ class Sched:
         self.blocked = set()      # names blocked in Event.wait()
         self.done = set()
         self.active = False       # free-run when False (accesses are not intercepted)
-        self.vtime = 1000.0
+        self.vtime = 1000.0       # per-thread virtual clocks (vt): a time-out of one thread's spin wait does not age the other's
+        self.vt = {}
         self.log = []             # granted accesses in order
         self.timeout_next = set()
 
@@ -101,7 +102,7 @@ class Sched:
             if nm not in self.pending:
                 raise Deadlock(f"{nm} has nothing pending")
             if self.pending[nm]["k"] == "sleep":
-                self.vtime += 2.0 if timeout_sleep else 0.001
+                self.vt[nm] = self.vt.get(nm, self.vtime) + (2.0 if timeout_sleep else 0.001)
                 self.pending[nm]["timeout"] = bool(timeout_sleep)
             self.granted = nm
             self.lock.notify_all()
@@ -185,7 +186,7 @@ class _ThreadingShim:
 class _TimeShim:
     @staticmethod
     def time():
-        return SCHED.vtime if SCHED.active and SCHED.me() else _realtime.time()
+        return SCHED.vt.get(SCHED.me(), SCHED.vtime) if SCHED.active and SCHED.me() else _realtime.time()
 
     def __getattr__(self, name):
         return getattr(_realtime, name)
